@@ -74,9 +74,13 @@ Proof. destruct st as [[o md] port]. unfold g_Emulator_Receive_step. cbn [negb].
 
 (* a failing port write ends the loop with the write's error; nothing joins the port's output (the state change that
    precedes the write - C16's order theorem - has happened) *)
+(* the mode register a command leaves behind *)
+Definition mode_after (i : Z) : Z := if i =? 16 then 54 else i.
+
 Theorem emu_receive_step_write_fails st f c : wf_bytes f -> conf_ok st -> validate f = VOk ->
   In (Z.of_N (nthb f 2)) [48; 192; 16] ->
-  exists st', g_Emulator_Receive_step false true f None (Some c) st = Val (inr (Some c, st')) /\ snd st' = snd st.
+  exists st', g_Emulator_Receive_step false true f None (Some c) st = Val (inr (Some c, st')) /\ snd st' = snd st /\
+              snd (fst st') = mode_after (Z.of_N (nthb f 2)).
 Proof.
   intros Hw Hc Ev Hid. destruct st as [[[bk n] md] port]. unfold conf_ok in Hc. cbn [fst snd] in Hc.
   unfold g_Emulator_Receive_step. cbv zeta. cbn [negb].
@@ -85,13 +89,16 @@ Proof.
   rewrite (identifier_agrees f Hw), Hi. cbn [rbind].
   destruct (Z.eqb_spec (Z.of_N (nthb f 2)) 48) as [E1|E1]; destruct (Z.eqb_spec (Z.of_N (nthb f 2)) 192) as [E2|E2];
     destruct (Z.eqb_spec (Z.of_N (nthb f 2)) 16) as [E3|E3]; try lia.
-  { rewrite (new_message_agrees 49 []) by lia. cbn [rbind g_port_write]. eexists. split; reflexivity. }
+  { rewrite (new_message_agrees 49 []) by lia. cbn [rbind g_port_write]. eexists. split; [reflexivity|]. split; [reflexivity|].
+    cbn [fst snd]. rewrite E1. reflexivity. }
   { rewrite (data_agrees f Hw (data_bound f Hw Ev)), Hdata. cbn [rbind].
     assert (Hwd : wf_bytes (sub f (hdr_len f) (N.to_nat (decl_len f)))).
     { unfold sub. apply XS.Proofs.FixedProofs.firstn_wf, XS.Proofs.FixedProofs.skipn_wf. exact Hw. }
     destruct (unmarshal_conf_agrees_full bk n _ Hwd Hc) as (o' & HU & _). rewrite HU. cbn [rbind].
-    rewrite (new_message_agrees 193 []) by lia. cbn [rbind g_port_write]. eexists. split; reflexivity. }
-  { rewrite (new_message_agrees 54 []) by lia. cbn [rbind g_port_write]. eexists. split; reflexivity. }
+    rewrite (new_message_agrees 193 []) by lia. cbn [rbind g_port_write]. eexists. split; [reflexivity|]. split; [reflexivity|].
+    cbn [fst snd]. rewrite E2. reflexivity. }
+  { rewrite (new_message_agrees 54 []) by lia. cbn [rbind g_port_write]. eexists. split; [reflexivity|]. split; [reflexivity|].
+    cbn [fst snd]. rewrite E3. reflexivity. }
   cbn [In] in Hid. lia.
 Qed.
 
